@@ -254,8 +254,88 @@ def make_network(layout):
     return fn
 
 
+def _shortcut_net():
+    if "shortcut" not in _NET:
+        net = pp.create_empty_network(sn_mva=10.)
+        b = [pp.create_bus(net, 20.) for _ in range(3)]
+        pp.create_ext_grid(net, b[0], vm_pu=1.02)
+        pp.create_line_from_parameters(net, b[0], b[1], 2., 0.1, 0.3, 10., 1.)
+        pp.create_line_from_parameters(net, b[1], b[2], 3., 0.1, 0.3, 10., 1.)
+        pp.create_load(net, b[1], 1., 0.5)
+        pp.create_load(net, b[2], 0.6, 0.3)
+        pp.create_shunt(net, b[1], 0.3, 0.2)
+        pp.runpp(net, numba=True, lightsim2grid=False, voltage_depend_loads=False)
+        _NET["shortcut"] = net
+    return _NET["shortcut"]
+
+
+def make_shortcut():
+    """the result-extraction variant chosen by the real selector (_get_numba_functions) must give the slack the same P/Q as the general
+    pfsoln, on every system the selector lets through - under the convergence equations at the PQ buses"""
+    def fn(ctx):
+        nr = ctx.load("pandapower.pf.run_newton_raphson_pf")
+        ps = ctx.load("pandapower.pypower.pfsoln")
+        mY = ctx.load("pandapower.pypower.makeYbus")
+        from pandapower.pypower.idx_bus import PD, QD, GS, BS, VM, VA
+        from pandapower.pypower.idx_gen import PG, QG
+        from symx.core import polar
+        net = copy.deepcopy(_shortcut_net())
+        internal = net._ppc["internal"]
+        bus, gen, branch = ctx.obj(internal["bus"]), ctx.obj(internal["gen"]), ctx.obj(internal["branch"].real)
+        baseMVA = internal["baseMVA"]
+        nb = bus.shape[0]
+        bus[:, [GS, BS]] = 0.
+        bus[1, GS] = ctx.var("gs1", 0., 2.)
+        bus[1, BS] = ctx.var("bs1", -2., 2.)
+        for b in (1, 2):
+            bus[b, PD] = ctx.var(f"pd{b}", -3., 3.)
+            bus[b, QD] = ctx.var(f"qd{b}", -3., 3.)
+        from pandapower.pypower.idx_brch import BR_R, BR_X, BR_B
+        for k in range(branch.shape[0]):      # symbolic branch data: no concrete floating point arithmetic inside makeYbus
+            branch[k, BR_R] = ctx.var(f"r{k}", 0.001, 0.1)
+            branch[k, BR_X] = ctx.var(f"x{k}", 0.001, 0.1)
+            branch[k, BR_B] = ctx.var(f"b{k}", 0., 0.01)
+        Ybus, Yf, Yt = mY.makeYbus(baseMVA, bus, branch)
+        if ctx.symbolic:
+            V = ctx.array([polar(ctx.var("vm0", 0.9, 1.1), 0.0)] + [polar(ctx.var(f"vm{b}", 0.8, 1.2), ctx.var(f"va{b}", -30., 30.)) for b in (1, 2)])
+        else:
+            import cmath
+            V = ctx.array([complex(ctx.var("vm0", 0.9, 1.1), 0.)] + [cmath.rect(ctx.var(f"vm{b}", 0.8, 1.2), np.deg2rad(ctx.var(f"va{b}", -30., 30.))) for b in (1, 2)])
+        A = Ybus.toarray() if hasattr(Ybus, "toarray") else np.asarray(Ybus)
+        # convergence at the PQ buses (Newton's exit test): V_i conj((Ybus V)_i) = -(PD_i + j QD_i) / baseMVA
+        resid = []
+        for b in (1, 2):
+            I = 0.0
+            for j in range(nb):
+                I = I + A[b, j] * V[j]
+            S = V[b] * I.conjugate()
+            if ctx.mode == "sym":
+                ctx.assume(S.real == -bus[b, PD] / baseMVA)
+                ctx.assume(S.imag == -bus[b, QD] / baseMVA)
+            resid.append(S)
+        if ctx.mode != "sym":
+            # sample points (validation, replay): make the point satisfy the convergence equations by choosing the loads accordingly
+            for k, b in enumerate((1, 2)):
+                bus[b, PD] = -resid[k].real * baseMVA
+                bus[b, QD] = -resid[k].imag * baseMVA
+        options = dict(net._options)
+        options["numba"] = True
+        ppci = {"bus": bus, "gen": gen, "branch": branch}
+        makeYbus_sel, pfsoln_sel = nr._get_numba_functions(ppci, options)
+        empty = lambda k: internal[k] if k in internal else np.zeros((0, 30))
+        ref, ref_gens = internal["ref"], internal["ref_gens"]
+        args = lambda: (baseMVA, bus.copy(), gen.copy(), branch.copy(), empty("svc"), empty("tcsc"), empty("ssc"), empty("vsc"), Ybus, Yf, Yt, V, ref, ref_gens)
+        b1, g1, br1 = pfsoln_sel(*args())
+        b2, g2, br2 = ps.pfsoln(*args())
+        ctx.true("shortcut_or_general", True)
+        ctx.notes.append(f"selected {getattr(pfsoln_sel, '__name__', pfsoln_sel)}")
+        ctx.eq("selected_result_extraction_gives_the_general_slack_p", g1[0, PG], g2[0, PG])
+        ctx.eq("selected_result_extraction_gives_the_general_slack_q", g1[0, QG], g2[0, QG])
+    return fn
+
+
 def instances(tier):
-    out = []
+    out = [Inst("single_slack_shortcut", make_shortcut(), nvars=30, samples=2, timeout_ms=120000, meta=dict(part="selector of the fast result extraction"))]
     for lay in ("slack_plus_pv", "single") + (("three_on_pv",) if tier == "thorough" else ()):
         out.append(Inst(f"generation_{lay}", make_generation(lay), nvars=60, samples=2, meta=dict(part="I4", layout=lay), timeout_ms=60000))
     for lay in ("parallel_pair", "reversed") + (("triangle",) if tier == "thorough" else ()):
